@@ -311,10 +311,10 @@ theorem winv_step (m : Mode) (hm : m.safe = true) (t : Nat) (c : WCfg) (h : WInv
         · simp only [upd_other _ _ _ _ hx]; exact h4 x
     · refine ⟨h1, h2, ?_, ?_⟩
       · intro hc x; by_cases hx : x = t
-        · subst hx; simp [hold]
+        · subst hx; simp
         · simp only [upd_other _ _ _ _ hx]; exact h3 hc x
       · intro x; by_cases hx : x = t
-        · subst hx; simp [hold, WOk]
+        · subst hx; simp [WOk]
         · simp only [upd_other _ _ _ _ hx]; exact h4 x
   · -- pubFirst: impossible in safe modes
     rename_i hpc; rw [hpc] at ht; exact absurd ht (by simp [WOk])
@@ -323,7 +323,7 @@ theorem winv_step (m : Mode) (hm : m.safe = true) (t : Nat) (c : WCfg) (h : WInv
     · rename_i hin
       refine ⟨h1, h2, ?_, ?_⟩
       · intro hc x; by_cases hx : x = t
-        · subst hx; simp [hc, hold]
+        · subst hx; simp [hc]
         · simp only [upd_other _ _ _ _ hx]; exact h3 hc x
       · intro x; by_cases hx : x = t
         · subst hx
@@ -331,7 +331,7 @@ theorem winv_step (m : Mode) (hm : m.safe = true) (t : Nat) (c : WCfg) (h : WInv
           by_cases hp : m = .patched
           · simp [hp, WOk]
           · have hc : m = .curCall := by cases m <;> simp_all [Mode.safe]
-            simp [hp, hold, WOk, h2 hc hin]
+            simp [hp, WOk, h2 hc hin]
         · simp only [upd_other _ _ _ _ hx]; exact h4 x
     · refine ⟨h1, h2, ?_, ?_⟩
       · intro hc x; by_cases hx : x = t
